@@ -215,6 +215,44 @@ def pre_valid(ctx, rule="PRE-VALID"):
     def rows_id(v):
         m = re.findall(r"call@\d+:[^,)]*", v)
         return m[-1] if m else v
+    # the same calls issued from a loop over an array of (make_*_table(..), &rows) pairs: one call site stands for every pair, provided the loop runs over that array
+    # to exhaustion and every turn passes the call
+    looped = {}
+    from ..flow import derived_locals
+    for c in list(checks):
+        m0 = re.search(r"call@(\d+):[^@]*Iterator>?::next@Some\.0\.0\)?$", c[2][0])
+        m1 = re.search(r"call@(\d+):[^@]*Iterator>?::next@Some\.0\.1\)?$", c[2][1])
+        if not (m0 and m1 and m0.group(1) == m1.group(1)):
+            continue
+        nb = int(m0.group(1))
+        nt = f.blocks[nb]["term"]
+        recv = nt["args"][0].get("pl", {}).get("l") if nt["t"] == "call" and nt["args"] else None
+        for bl in f.blocks:
+            if bl["cleanup"]:
+                continue
+            for st in bl["stmts"]:
+                r = st["rhs"]
+                if not (r["rv"] == "agg" and r.get("array")):
+                    continue
+                elems = [Sy.val(o) for o in r["ops"]]
+                if not all(e.startswith("tuple{") and "internal::package::make_" in e for e in elems):
+                    continue
+                if recv is None or recv not in derived_locals(f, {st["lhs"]["l"]}, through_calls=lambda tt: True):
+                    continue
+                # exhaustion: the switch on this next() — Some leads (through the call) back to next(), None leaves the loop
+                sw = [x for x in f.blocks if not x["cleanup"] and x["term"]["t"] == "switch" and re.fullmatch(r"discr\(call@%d:.*\)" % nb, Sy.val(x["term"]["discr"]))]
+                if len(sw) != 1:
+                    continue
+                some = [tg for (v, tg) in sw[0]["term"]["cases"] if v == 1] or [sw[0]["term"]["otherwise"]]
+                none = [tg for (v, tg) in sw[0]["term"]["cases"] if v == 0] or [sw[0]["term"]["otherwise"]]
+                every_turn = cfg.must_pass(f, some[0], {c[0]}, {nb})
+                for e in elems:
+                    parts = e[len("tuple{"):-1].split(",", 1)
+                    if len(parts) == 2:
+                        synth = (c[0], c[1], [parts[0], parts[1]], c[3])
+                        checks.append(synth)
+                        looped[id(synth)] = (nb, none[0], every_turn)
+        checks.remove(c)
     n = 0
     for (b, nme, args, t) in cs:
         if nme != "msi::internal::package::Package::<F>::insert_rows":
@@ -230,8 +268,13 @@ def pre_valid(ctx, rule="PRE-VALID"):
         if ok:
             c = hit[0]
             tags = classify(f, du, c[3]["dest"]["l"])
-            ok = "propagated" in tags and all(c[0] in dom.get(mb, ()) for mb in muts)
-            why = "check_rows result %s; dominates all %d mutation blocks: %s" % (sorted(tags), len(muts), all(c[0] in dom.get(mb, ()) for mb in muts))
+            if id(c) in looped:
+                nb_, none_, every_turn = looped[id(c)]
+                domall = every_turn and all(none_ in dom.get(mb, ()) for mb in muts)
+            else:
+                domall = all(c[0] in dom.get(mb, ()) for mb in muts)
+            ok = "propagated" in tags and domall
+            why = "check_rows result %s; dominates all %d mutation blocks: %s" % (sorted(tags), len(muts), domall)
         ctx.check(ok, rule, "create_table: rows for %s are pre-validated" % lab, why,
                   "create_table inserts into %s without a dominating, propagated check_rows on the same rows and schema (%s): a late refusal leaves the table half created" % (lab, why),
                   f.loc(t["sp"]), fn=f.name, key="%s|create|%s" % (rule, lab))
